@@ -199,7 +199,7 @@ func init() {
 		Harnesses: []HarnessSpec{
 			{Dir: "merkleblock", Name: "ZZ_C12_extract", Variant: "n<=2,flags<=1B,4-hash alphabet", Reach: []string{"extracted", "accepted"}, Tweak: merkleCfg("maxn", 2, "maxflagbytes", 1, "hashbits", 2)},
 			{Dir: "merkleblock", Name: "ZZ_C12_extract", Variant: "n=4,<=2 hashes,4-hash alphabet", Reach: []string{"extracted"}, Tweak: merkleCfg("maxn", 2, "onlyn", 4, "maxhashes", 2, "maxflagbytes", 1, "hashbits", 2)},
-			{Dir: "merkleblock", Name: "ZZ_C12_extract", Variant: "n=5,<=4 hashes,2 flag bytes", Tiers: "thorough", Reach: []string{"extracted"}, Tweak: merkleCfg("maxn", 2, "onlyn", 5, "maxhashes", 4, "maxflagbytes", 2, "hashbits", 2)},
+			{Dir: "merkleblock", Name: "ZZ_C12_extract", Variant: "n=5,<=4 hashes,2 flag bytes", Reach: []string{"extracted"}, Tweak: merkleCfg("maxn", 2, "onlyn", 5, "maxhashes", 4, "maxflagbytes", 2, "hashbits", 2)},
 			{Dir: "merkleblock", Name: "ZZ_C12_extract", Variant: "n<=4,flags<=1B,full hashes", Tiers: "thorough", Reach: []string{"extracted", "accepted"}, Tweak: merkleCfg("maxn", 4, "maxflagbytes", 1, "bigcounthashes", 2)},
 		},
 	})
@@ -453,7 +453,7 @@ func init() {
 		"double-SHA256 is an uninterpreted, collision-free function",
 		"hash pointers in the message are non-nil (guaranteed by wire decoding)",
 	}, []string{"counts/hash lists/flag strings above the tier bound", "a second ExtractMatches call on the same object"},
-		"quick: declared count in {0,1,2,MaxTxnCount,MaxTxnCount+1,2^32-1} and every count above MaxTxnCount (symbolic), 0..3 hashes over a 4-element symbolic alphabet, all flag strings of 0..1 bytes", "thorough: count<=4, full 256-bit symbolic hashes")
+		"quick: declared count in {0,1,2,MaxTxnCount,MaxTxnCount+1,2^32-1} and every count above MaxTxnCount (symbolic), 0..3 hashes over a 4-element symbolic alphabet, all flag strings of 0..1 bytes; declared count 5 with <=4 hashes and all flag strings of 0..2 bytes", "thorough: count<=4, full 256-bit symbolic hashes")
 	meta("C13", []string{
 		"SipHash-2-4 is an uninterpreted function of (item, key): item hashes are arbitrary 64-bit values",
 		"fastReduction is replaced by its contract floor(v*NM/2^64) < NM (uninterpreted below that bound); the contract is proved in C14 (ZZ_C14_fastreduction)",
